@@ -53,7 +53,7 @@ impl Fin {
   fn new() -> Self {
     Fin { count: Arc::new(AtomicUsize::new(0)), stamp: Arc::new(AtomicU64::new(u64::MAX)) }
   }
-  fn callback(&self) -> impl FnMut() + Send + 'static {
+  fn callback(&self) -> impl FnMut() + Send + Clone + 'static {
     let c = self.count.clone();
     let s = self.stamp.clone();
     move || {
@@ -393,9 +393,115 @@ impl Scenario for C15Threads {
 pub fn check_def() -> PropertyCheck {
   PropertyCheck {
     id: "C15",
-    scenarios: vec![Box::new(C15Des), Box::new(C15Threads)],
+    scenarios: vec![Box::new(C15Des), Box::new(C15Threads), Box::new(C15Clones)],
     runs: (100_000, 12_000_000),
     rule: "DES case = finalize | finalize_threads over a hot subject / cold sync source / failing source, optional pass-through tail, then <=7 triggers (next, complete, error through cloned handles, unsubscribe, guard drop) in any order; thread case = 2-3 threads each issuing complete / error / unsubscribe concurrently on finalize_threads; non-trivial = >=2 triggers or a repeated trigger (DES) / a decision with >1 eligible thread (threads)",
     assumptions: vec!["sequentially consistent execution"],
+  }
+}
+
+// ------------------------------------------------------- clones of one finalize
+
+#[derive(Clone, Debug, Serialize, Deserialize)]
+pub struct CCase {
+  threads_flavour: bool,
+  subscriptions: usize,
+  /// 0 complete, 1 error, 2+i unsubscribe subscription i (modulo)
+  trigs: Vec<u8>,
+}
+
+pub struct C15Clones;
+
+impl Scenario for C15Clones {
+  fn name(&self) -> &'static str {
+    "c15.clones"
+  }
+  fn components(&self) -> (&'static [&'static str], &'static [&'static str]) {
+    (&["FinalizeOp / FinalizeOpThreads cloned and subscribed several times (per-subscription callback cell)"], &[])
+  }
+  fn generate(&self, rng: &mut Rng, _tier: Tier) -> Value {
+    let k = rng.range(2, 3);
+    let trigs = (0..rng.range(1, 5)).map(|_| rng.below(2 + k) as u8).collect();
+    serde_json::to_value(CCase { threads_flavour: rng.chance(1, 2), subscriptions: k, trigs }).unwrap()
+  }
+  fn run(&self, case: &Value) -> Result<Outcome, String> {
+    let case: CCase = serde_json::from_value(case.clone()).map_err(|e| e.to_string())?;
+    if case.subscriptions == 0 || case.subscriptions > 4 || case.trigs.len() > 12 {
+      return Err("bad shape".into());
+    }
+    let w = World::new();
+    let fin = Fin::new();
+    let local = Subject::<'static, Val, E>::default();
+    let shr = SubjectThreads::<Val, E>::default();
+    let k = case.subscriptions;
+    let mut handles: Vec<Option<Box<dyn crate::props::c06::SubHandle>>> = Vec::new();
+    let mut logs = Vec::new();
+    if case.threads_flavour {
+      let op = shr.clone().finalize_threads(fin.callback());
+      for _ in 0..k {
+        let l = ProbeLog::new(false);
+        handles.push(Some(Box::new(op.clone().actual_subscribe(Probe(l.clone())))));
+        logs.push(l);
+      }
+    } else {
+      let op = local.clone().finalize(fin.callback());
+      for _ in 0..k {
+        let l = ProbeLog::new(false);
+        handles.push(Some(Box::new(op.clone().actual_subscribe(Probe(l.clone())))));
+        logs.push(l);
+      }
+    }
+    let site = if case.threads_flavour { "finalize_threads/clones" } else { "finalize/clones" }.to_string();
+    let mut triggered = vec![false; k];
+    let mut violation = None;
+    let mut trace = format!("subscribe x{} ", k);
+    for t in &case.trigs {
+      match *t {
+        0 | 1 => {
+          match (*t, case.threads_flavour) {
+            (0, false) => local.clone().complete(),
+            (0, true) => shr.clone().complete(),
+            (_, false) => local.clone().error(1),
+            (_, true) => shr.clone().error(1),
+          }
+          for x in triggered.iter_mut() {
+            *x = true;
+          }
+          trace.push_str(if *t == 0 { "complete " } else { "error " });
+        }
+        i => {
+          let i = (i as usize - 2) % k;
+          if let Some(h) = handles[i].take() {
+            h.unsub();
+            triggered[i] = true;
+            trace.push_str(&format!("unsub{} ", i));
+          }
+        }
+      }
+      let want = triggered.iter().filter(|x| **x).count();
+      let got = fin.count.load(SeqCst);
+      if got != want {
+        violation = Some(Violation {
+          rule: if got > want { "c15.more-than-once" } else { "c15.not-run" }.into(),
+          site: site.clone(),
+          detail: format!("`{}`: {} of the {} subscriptions have been completed / failed / unsubscribed, the finalizer ran {} time(s)", trace.trim(), want, k, got),
+        });
+        break;
+      }
+    }
+    let h = hash_mix(hash_str(&trace), fin.count.load(SeqCst) as u64);
+    handles.clear();
+    drop(w);
+    Ok(Outcome {
+      violation,
+      trace_hash: h,
+      nontrivial: true,
+      sim_ns: 0,
+      steps: case.trigs.len() as u64,
+      faults: vec![],
+      reach: vec![],
+      resolved: None,
+      sample: format!("{}: {} => finalizer x{}", site, trace.trim(), fin.count.load(SeqCst)),
+    })
   }
 }
